@@ -30,11 +30,11 @@ import (
 // a prefix of the writer's commands.
 
 type windowCase struct {
-	Sync   string     `json:"sync"`
-	Setup  []op       `json:"setup"`
-	Writer []op       `json:"writer"`
-	Points []string   `json:"points,omitempty"` // failpoints at which the writer is released (empty = all seen)
-	Failed string     `json:"failed_point,omitempty"`
+	Sync   string   `json:"sync"`
+	Setup  []op     `json:"setup"`
+	Writer []op     `json:"writer"`
+	Points []string `json:"points,omitempty"` // failpoints at which the writer is released (empty = all seen)
+	Failed string   `json:"failed_point,omitempty"`
 }
 
 func isRewritePoint(name string) bool {
@@ -153,7 +153,7 @@ func runWindow(w windowCase, point string) (points []string, failure string) {
 	}
 	select {
 	case <-writerDone:
-	case <-time.After(15 * time.Second):
+	case <-time.After(sut.Patience(15 * time.Second)):
 		return points, fmt.Sprintf("deadlock: the writer released at failpoint %s had not returned 15 s after REWRITEAOF returned", point)
 	}
 	_ = wDigests
